@@ -110,6 +110,7 @@ type c20Op struct {
 	Meta   string
 	Pkt    int
 	Copies int
+	Spell  int // add: spelling of the metadata strings (see c20Spell)
 }
 
 func (o c20Op) String() string { return o.Name }
@@ -119,6 +120,8 @@ func c20DemuxOps(pkts []c20Pkt, sequences bool) []c20Op {
 		{Name: "add(a,a1)", Kind: 0, ID: "a", Meta: "a1"},
 		{Name: "add(a,a2)", Kind: 0, ID: "a", Meta: "a2"},
 		{Name: "add(b,b)", Kind: 0, ID: "b", Meta: "b"},
+		{Name: "add(a,A1-UPPER-CASE-HEX)", Kind: 0, ID: "a", Meta: "a1", Spell: 1},
+		{Name: "add(b,b-aLtErNaTiNg-hex)", Kind: 0, ID: "b", Meta: "b", Spell: 2},
 		{Name: "remove(a)", Kind: 1, ID: "a"},
 		{Name: "remove(b)", Kind: 1, ID: "b"},
 	}
@@ -151,6 +154,7 @@ type c20Sys struct {
 	inner   *vnet.PacketConn
 	pc      *PunchPacketConn
 	model   map[string]string // id -> meta name
+	spell   map[string]int    // id -> spelling it was registered with
 	removed map[string]bool   // history abstraction kept in the key (see Key)
 	read    bool
 	hist    []c20Op
@@ -163,12 +167,12 @@ func c20NewSys(pkts []c20Pkt) *c20Sys {
 	if err != nil {
 		panic(err)
 	}
-	return &c20Sys{pkts: pkts, metas: c20DemuxMetas(), inner: inner, pc: pc, model: map[string]string{}, removed: map[string]bool{}}
+	return &c20Sys{pkts: pkts, metas: c20DemuxMetas(), inner: inner, pc: pc, model: map[string]string{}, spell: map[string]int{}, removed: map[string]bool{}}
 }
 
 func (s *c20Sys) metaName(m PunchMetadata) string {
 	for _, n := range []string{"a1", "a2", "b", "c"} {
-		if s.metas[n].real() == m {
+		if r := s.metas[n].real(); strings.EqualFold(r.Nonce, m.Nonce) && strings.EqualFold(r.Obfs, m.Obfs) {
 			return n
 		}
 	}
@@ -189,7 +193,12 @@ func (s *c20Sys) realRegistry() (string, bool) {
 	}
 	var parts []string
 	for _, k := range v.MapKeys() {
-		parts = append(parts, k.String()+"="+s.metaName(v.MapIndex(k).Interface().(PunchMetadata)))
+		m := v.MapIndex(k).Interface().(PunchMetadata)
+		tag := "" // spelling is part of the state: registering the same bytes in another spelling is another state
+		if m.Nonce != strings.ToLower(m.Nonce) || m.Obfs != strings.ToLower(m.Obfs) {
+			tag = "^"
+		}
+		parts = append(parts, k.String()+"="+s.metaName(m)+tag)
 	}
 	sort.Strings(parts)
 	return strings.Join(parts, ","), true
@@ -206,7 +215,11 @@ func (s *c20Sys) privLen(name string) int {
 func (s *c20Sys) modelRegistry() string {
 	var parts []string
 	for id, m := range s.model {
-		parts = append(parts, id+"="+m)
+		tag := ""
+		if s.spell[id] != 0 {
+			tag = "^"
+		}
+		parts = append(parts, id+"="+m+tag)
 	}
 	sort.Strings(parts)
 	return strings.Join(parts, ",")
@@ -242,10 +255,11 @@ func (s *c20Sys) Apply(op c20Op) (err error) {
 func (s *c20Sys) apply(op c20Op) error {
 	switch op.Kind {
 	case 0:
-		if err := s.pc.AddPunchAttempt(op.ID, s.metas[op.Meta].real()); err != nil {
+		if err := s.pc.AddPunchAttempt(op.ID, s.metas[op.Meta].spelled(op.Spell)); err != nil {
 			return fmt.Errorf("add-error: AddPunchAttempt(%s) failed: %v", op.ID, err)
 		}
 		s.model[op.ID] = op.Meta
+		s.spell[op.ID] = op.Spell
 	case 1:
 		s.pc.RemovePunchAttempt(op.ID)
 		if _, ok := s.model[op.ID]; ok {
